@@ -11,7 +11,7 @@ from efsim import env, gen, spec as S, compare as C
 from efsim.prng import Keyed
 from efsim.sim import Sim, OpSkipped
 
-MAX_BUILD_ATTEMPTS = 6
+MAX_BUILD_ATTEMPTS = 8
 OP_TIMEOUT = int(__import__("os").environ.get("EFSIM_OP_TIMEOUT", "40"))  # wall seconds; a normal op takes < 1 s
 
 
@@ -89,6 +89,11 @@ def initial_spec(k, cfg, stats, generator=None, index=0):
     last = None
     for attempt in range(MAX_BUILD_ATTEMPTS):
         kk = k.sub("attempt", attempt)
+        if attempt == MAX_BUILD_ATTEMPTS // 2 and cfg.get("short_storage"):
+            # short storage durations make Storage compare series of different windows by position (observation O3,
+            # C04's subject) and can make every topology of this configuration unbuildable: relax that one knob
+            cfg["short_storage"] = False
+            stats["short_storage_relaxed"] = 1
         sp = generator(kk, cfg, index) if generator is not None else gen.gen_spec(kk, cfg)
         try:
             S.build_world(sp, "probe")
